@@ -17,6 +17,7 @@ LEVEL_TEXT = ("For every read through the real (Paired)ReverseComplementer the m
               "rule selects, so later stages are covered too; read_counts.reverse_complemented must equal the number selected.")
 LEVEL_TEXT += " The --revcomp run's info and rest files must show, read by read, what the run on the selected orientation shows; the stage is also given reads that earlier stages shortened (API: original read longer than the stage input; command line: -u/-q together with --revcomp versus --revcomp on their output)."
 LEVEL_TEXT += " Read names that already end in ' rc'; paired command-line runs that show each mate's own match in its name ({adapter_name}, {match_sequence}) and filter on R1 only."
+LEVEL_TEXT += ' Linked adapters take part; their score is computed from the parts.'
 LEVEL_NOTE = ("Trusted base: refmodel.revcomp, the match scores reported by the traced adapter stage of the two reference runs, "
               "independent FASTQ parser. Workload includes error rates >= 0.4 (negative scores), palindromic adapters (ties), --times, every action.")
 VARIANTS = {"quick": ["plain"], "thorough": ["plain"]}
